@@ -745,15 +745,42 @@ package cbor
 //@   ensures old(content(src))[0] & 31 == 25 ==> res == ite(old(content(src))[0] >> 5 == 0, int64(old(content(src))[1]) * 256 + int64(old(content(src))[2]), -1 - (int64(old(content(src))[1]) * 256 + int64(old(content(src))[2]))) && off(content(src)) == old(off(content(src))) + 3
 //@   ensures old(content(src))[0] & 31 == 27 ==> off(content(src)) == old(off(content(src))) + 9
 
+//@ track utf8.DecodeRuneInString
 //@ func decodeStringComplex(dst, s, pos) res
 //@   props C17 C08
-//@   arith bv
+//@   arith int
 //@   flag tags binary_log
 //@   requires int(pos) >= 0 && int(pos) <= len(s)
 //@   ensures [C08] prefix(res, dst) && len(res) >= len(dst)
+//@   ensures [C08] cov == len(s)
+//@   ensures [C08] len(hexTable) == 16 && hexTable[0] == '0' && hexTable[9] == '9' && hexTable[10] == 'a' && hexTable[15] == 'f'
+//@   site append 1: assert [C08] samearray(chunk, s) && off(chunk) == off(s) + cov && len(chunk) == i - cov
+//@   site append 1: cov += i - start
+//@   site append 2: assert [C08] cov == i && len(chunk) == 6 && chunk[0] == 92 && chunk[1] == 'u' && chunk[2] == 'f' && chunk[3] == 'f' && chunk[4] == 'f' && chunk[5] == 'd'
+//@   site append 2: assert [C08] callres(utf8.DecodeRuneInString, ncalls(utf8.DecodeRuneInString) - 1, 0) == 65533 && callres(utf8.DecodeRuneInString, ncalls(utf8.DecodeRuneInString) - 1, 1) == 1 && samearray(callarg(utf8.DecodeRuneInString, ncalls(utf8.DecodeRuneInString) - 1, 0), s) && off(callarg(utf8.DecodeRuneInString, ncalls(utf8.DecodeRuneInString) - 1, 0)) == off(s) + i
+//@   site append 2: cov += 1
+//@   site append 3: assert [C08] samearray(chunk, s) && off(chunk) == off(s) + cov && len(chunk) == i - cov
+//@   site append 3: cov += i - start
+//@   site append 4: assert [C08] cov == i && len(chunk) == 2 && chunk[0] == 92 && chunk[1] == s[i] && (s[i] == 34 || s[i] == 92)
+//@   site append 4: cov += 1
+//@   site append 5: assert [C08] cov == i && len(chunk) == 2 && chunk[0] == 92 && chunk[1] == 'b' && s[i] == 8
+//@   site append 5: cov += 1
+//@   site append 6: assert [C08] cov == i && len(chunk) == 2 && chunk[0] == 92 && chunk[1] == 'f' && s[i] == 12
+//@   site append 6: cov += 1
+//@   site append 7: assert [C08] cov == i && len(chunk) == 2 && chunk[0] == 92 && chunk[1] == 'n' && s[i] == 10
+//@   site append 7: cov += 1
+//@   site append 8: assert [C08] cov == i && len(chunk) == 2 && chunk[0] == 92 && chunk[1] == 'r' && s[i] == 13
+//@   site append 8: cov += 1
+//@   site append 9: assert [C08] cov == i && len(chunk) == 2 && chunk[0] == 92 && chunk[1] == 't' && s[i] == 9
+//@   site append 9: cov += 1
+//@   site append 10: assert [C08] cov == i && len(chunk) == 6 && chunk[0] == 92 && chunk[1] == 'u' && chunk[2] == '0' && chunk[3] == '0' && chunk[4] == hexTable[s[i]>>4] && chunk[5] == hexTable[s[i]&15] && s[i] < 128 && (s[i] < 32 || s[i] > 126)
+//@   site append 10: cov += 1
+//@   site append 11: assert [C08] samearray(chunk, s) && off(chunk) == off(s) + cov && len(chunk) == len(s) - cov
+//@   site append 11: cov += len(s) - start
 //@   loop 1:
 //@     invariant 0 <= start && start <= i && i <= len(s)
 //@     invariant [C08] prefix(dst, dst0) && len(dst) >= len(dst0)
+//@     invariant [C08] cov == start
 
 // one item to JSON: an unsigned integer is printed from the unsigned value of
 // its argument, a negative integer from -1 - argument (strconv's decimal text
